@@ -586,7 +586,8 @@ func (r *Runner) c16repeat(op *OpSpec, st *Step, v *value, arg interface{}, cano
 	r.st(st).evals++
 	res.Evals++
 	a := newArena(res.N+8, res.N+8)
-	n, err, pc, _ := callEnc(a.buf(), arg)
+	// the same unmodified value again, through the other argument form (pointer <-> struct value)
+	n, err, pc, _ := callEnc(a.buf(), v.arg(!op.ByValue))
 	if pc != "" || err != nil || n != res.N {
 		r.violation("C16", "C16/not-repeatable", fmt.Sprintf("re-encoding %s gave n=%d err=%v (first call n=%d)", op.Type, n, err, res.N), st)
 		return
@@ -594,11 +595,43 @@ func (r *Runner) c16repeat(op *OpSpec, st *Step, v *value, arg interface{}, cano
 	if cb, _, ok := model.CanonBytes(a.buf()[:n]); !ok || model.Digest(cb) != canon {
 		r.violation("C16", "C16/not-repeatable", fmt.Sprintf("re-encoding the unmodified %s value gave a different message", op.Type), st)
 	}
+	if op.ByValue && r.sharedFor(st) == nil {
+		r.c16churn(op, st, v)
+	}
 	if so := r.sharedFor(st); so != nil {
 		if so.canon == "" {
 			so.canon = canon
 		} else if so.canon != canon {
 			r.violation("C16", "C16/not-repeatable/shared", fmt.Sprintf("two tasks encoding the same shared %s value got different messages", op.Type), st)
+		}
+	}
+}
+
+// c16churn: by-value arguments are boxed by the caller; the box of an earlier value may be collected and a later,
+// different value boxed at the same address. Encode a few different values of the type by value, with collections in
+// between, and require each to encode as it does by pointer.
+func (r *Runner) c16churn(op *OpSpec, st *Step, v *value) {
+	for k := 1; k <= 3; k++ {
+		runtime.GC()
+		o2 := *op
+		o2.VSeed = model.Mix(op.VSeed, 0xc4, uint64(k))
+		v2 := r.buildValue(&o2)
+		s, pc, _ := callSize(v2.arg(false))
+		if pc != "" {
+			return
+		}
+		a1, a2 := newArena(s+8, s+8), newArena(s+8, s+8)
+		n1, e1, p1, _ := callEnc(a1.buf(), v2.arg(true))
+		n2, e2, p2, _ := callEnc(a2.buf(), v2.arg(false))
+		r.st(st).evals++
+		if p1 != "" || p2 != "" || e1 != nil || e2 != nil {
+			continue
+		}
+		c1, _, ok1 := model.CanonBytes(a1.buf()[:n1])
+		c2, _, ok2 := model.CanonBytes(a2.buf()[:n2])
+		if n1 != n2 || !ok1 || !ok2 || string(c1) != string(c2) {
+			r.violation("C16", "C16/not-repeatable/by-value-vs-pointer", fmt.Sprintf("the same %s value encodes to %d bytes by value and to a different message of %d bytes by pointer; value=%s", op.Type, n1, n2, v2.w.String()), st)
+			return
 		}
 	}
 }
